@@ -30,6 +30,8 @@ def tables(rnd, quick):
 
 
 def scripts(rnd, quick):
+    for sc in macro_script(rnd):          # a table written with the library's own construction macros
+        yield sc
     for be, ty, ck, lo, hi, ins, outs, areas, regs in (list(tables(rnd, quick)) if quick else list(tables(rnd, quick)) + list(tables(rnd, quick)) + list(tables(rnd, quick))):
         sc = [tinit(be, areas, regs), 'get 0', 'get 1', 'get 2']
         m = (1 << BITS[ty]) - 1
